@@ -280,6 +280,8 @@ def exitM (fixed : Bool) (m : MState) (a : Nat) : MState :=
 inductive MOp
   | spawn
   | spawnl (p : Nat)
+  /-- `spawn_local_linked` (thread-local actor): the link is made BEFORE `pre_start`, which may then fail -/
+  | spawnlt (p : Nat) (preStartFails : Bool)
   | link (c p : Nat)
   | unlink (c p : Nat)
   | block (a : Nat)
@@ -301,6 +303,13 @@ def mstep (fixed : Bool) (m : MState) : MOp → MState × Res
     let c := m.t.n
     let r := link (spawn m.t) c p
     if r.2 then ({ m with t := setStatus r.1 c .running }, .ok)
+    else (exitM fixed { m with t := r.1 } c, .err)
+  | .spawnlt p fails =>
+    let c := m.t.n
+    let r := link (spawn m.t) c p
+    -- a refused link fails the spawn before any user code has seen the cell: nothing observable is left
+    if !r.2 then (m, .err)
+    else if !fails then ({ m with t := setStatus r.1 c .running }, .ok)
     else (exitM fixed { m with t := r.1 } c, .err)
   | .link c p => let r := link m.t c p; ({ m with t := r.1 }, if r.2 then .tt else .ff)
   | .unlink c p => ({ m with t := unlink m.t c p }, .unit)
